@@ -261,6 +261,27 @@ class _Sym:
         for s in stmts:
             if isinstance(s, ast.Assign) and isinstance(s.targets[0], ast.Name):
                 self.env[s.targets[0].id] = self.val(s.value)
+            elif isinstance(s, ast.Assign) and isinstance(s.targets[0], (ast.Tuple, ast.List)) and len(s.targets) == 1:
+                # a, *rest = <list> / a, b = <list>: destructuring of a symbolic list of known length
+                v = self.val(s.value)
+                elts = s.targets[0].elts
+                if v[0] != "list" or not all(isinstance(e, ast.Name) or (isinstance(e, ast.Starred) and isinstance(e.value, ast.Name)) for e in elts):
+                    raise AnalysisError(f"get_function_from_module: unmodelled statement `{short(s)}`")
+                stars = [i for i, e in enumerate(elts) if isinstance(e, ast.Starred)]
+                items = v[1]
+                if len(stars) > 1 or (not stars and len(elts) != len(items)) or (stars and len(items) < len(elts) - 1):
+                    return ("ValueError",)
+                if stars:
+                    k = stars[0]
+                    after = len(elts) - k - 1
+                    for e, it in zip(elts[:k], items[:k]):
+                        self.env[e.id] = it
+                    self.env[elts[k].value.id] = ("list", items[k:len(items) - after])
+                    for e, it in zip(elts[k + 1:], items[len(items) - after:]):
+                        self.env[e.id] = it
+                else:
+                    for e, it in zip(elts, items):
+                        self.env[e.id] = it
             elif isinstance(s, ast.If):
                 r = self.run(s.body if self.truth(s.test) else s.orelse)
                 if r is not None:
